@@ -376,7 +376,35 @@ fn check_enc_case(c: &EncCase, stats: &mut Stats) -> CaseResult {
         #[serde(rename = "org.example.Put")]
         Put { key: String, val: Option<Vec<i64>>, tag: String },
     }
-    match c.variant % 6 {
+    // plain structs with other numbers of own members than two (the statement speaks of "the
+    // method type's own members", whatever they are)
+    #[derive(Debug, Clone, PartialEq, Serialize, Deserialize)]
+    struct MethodOnly {
+        method: String,
+    }
+    #[derive(Debug, Clone, PartialEq, Serialize, Deserialize)]
+    struct Wide3 {
+        method: String,
+        #[serde(default, skip_serializing_if = "Option::is_none")]
+        parameters: Option<Vec<i64>>,
+        trace_id: String,
+    }
+    #[derive(Debug, Clone, PartialEq, Serialize, Deserialize)]
+    struct Wide5 {
+        method: String,
+        parameters: std::collections::BTreeMap<String, i64>,
+        trace_id: String,
+        deadline: i64,
+        tags: Vec<String>,
+    }
+    match c.variant % 9 {
+        6 => check_call_encode(MethodOnly { method: c.s.clone() }, c.flags & 7, stats),
+        7 => check_call_encode(Wide3 { method: c.s.clone(), parameters: c.val.clone(), trace_id: format!("t{}", c.n) }, c.flags & 7, stats),
+        8 => check_call_encode(
+            Wide5 { method: c.s.clone(), parameters: [(c.s.clone(), c.n)].into_iter().collect(), trace_id: c.s.clone(), deadline: c.n, tags: vec![c.s.clone(); (c.n.unsigned_abs() % 3) as usize] },
+            c.flags & 7,
+            stats,
+        ),
         0 => check_call_encode(Owned::Echo { s: c.s.clone(), n: c.n }, c.flags & 7, stats),
         1 => check_call_encode(Owned::Ping, c.flags & 7, stats),
         2 => check_call_encode(Owned::Put { key: c.s.clone(), val: c.val.clone(), tag: "t".into() }, c.flags & 7, stats),
